@@ -15,6 +15,7 @@ import (
 )
 
 type Engine struct {
+	callInfos map[*FuncInfo]*callInfo
 	fset        *token.FileSet
 	pkgs        []*packages.Package
 	funcs       map[*types.Func]*FuncInfo
@@ -708,4 +709,72 @@ func (x *Exec) assumeObjInv(s *State, v *Term, t types.Type) {
 		s.assume(Implies(Not(Eq(v, IntLit(0))), t))
 		x.eng.usedTypeInv[ti.c.Kind+": "+ti.c.Text] = true
 	}
+}
+
+// ---- static call information for the ghost call log ----
+
+type callInfo struct {
+	callees map[*FuncInfo]bool // module functions that may be called (transitively)
+	unknown bool               // makes a call whose target is not statically known (interface / function value)
+}
+
+// callsOf: the module functions fi may call, transitively (conservative: a call through an interface or a function
+// value whose target is not a library function sets unknown)
+func (eng *Engine) callsOf(fi *FuncInfo) *callInfo {
+	if eng.callInfos == nil {
+		eng.callInfos = map[*FuncInfo]*callInfo{}
+	}
+	if ci, ok := eng.callInfos[fi]; ok {
+		return ci
+	}
+	ci := &callInfo{callees: map[*FuncInfo]bool{}}
+	eng.callInfos[fi] = ci // cycles: the partial result is completed below
+	if fi.Decl == nil || fi.Decl.Body == nil {
+		ci.unknown = true
+		return ci
+	}
+	info := fi.Pkg.TypesInfo
+	ast.Inspect(fi.Decl.Body, func(n ast.Node) bool {
+		call, ok := n.(*ast.CallExpr)
+		if !ok {
+			return true
+		}
+		if tv, ok := info.Types[call.Fun]; ok && tv.IsType() {
+			return true
+		}
+		var obj types.Object
+		switch f := unparen(call.Fun).(type) {
+		case *ast.Ident:
+			obj = info.ObjectOf(f)
+		case *ast.SelectorExpr:
+			obj = info.ObjectOf(f.Sel)
+		case *ast.IndexExpr:
+			if id, ok := f.X.(*ast.Ident); ok {
+				obj = info.ObjectOf(id)
+			}
+		}
+		switch o := obj.(type) {
+		case *types.Builtin, nil:
+			if obj == nil {
+				ci.unknown = true
+			}
+		case *types.Func:
+			if c := eng.funcs[o.Origin()]; c != nil {
+				ci.callees[c] = true
+				sub := eng.callsOf(c)
+				for k := range sub.callees {
+					ci.callees[k] = true
+				}
+				if sub.unknown {
+					ci.unknown = true
+				}
+			} else if sig, ok := o.Type().(*types.Signature); ok && sig.Recv() != nil && isInterface(sig.Recv().Type()) && o.Pkg() != nil && strings.Contains(o.Pkg().Path(), "tdewolff/canvas") {
+				ci.unknown = true // interface of the module: any implementation
+			}
+		default:
+			ci.unknown = true // function value
+		}
+		return true
+	})
+	return ci
 }
